@@ -206,10 +206,7 @@ func runBehaviour(w *World, beh []Step, usePEM bool, rep *vh.Report, kinds map[s
 		if sc.BadPath != "" {
 			rep.Violate(fp("wrong-endpoint"), desc+": the request went to "+sc.BadPath, ctxt)
 		}
-		if sc.Extra > 0 && s.End == "answered" {
-			rep.Violate(fp("asked-again-after-final-answer"), desc+": the client repeated the request after a final answer", ctxt)
-		}
-		if returned && isNothing(res) {
+		if returned && isNothing(res) && reflect.ValueOf(res).Kind() == reflect.Ptr {
 			rep.Violate(fp("nil-without-error"), desc+": neither a value nor an error", ctxt)
 			continue
 		}
